@@ -111,6 +111,10 @@ SPARSE_GLYPHS = ("a", "c")
 
 
 def kerning_spec(d, role, kern):
+    # "hole-*": one complete master carries no kerning at all (= every pair is 0 there)
+    if ((kern == "hole-default" and "default" in role) or (kern == "hole-last" and "last" in role)
+            or (kern == "hole-mid" and "default" not in role and "last" not in role)):
+        return {}
     k = {
         "a b": -50 - d,
         "public.kern1.A public.kern2.B": 20.5 + d / 4,
@@ -608,6 +612,12 @@ class C19(Property):
             for topo, rnd in itertools.product(("2m", "3mi"), (0, 1)):
                 out.append([{"mode": "inst", "topo": topo, "map": 0, "round": rnd, "rules": "none",
                              "scribble": 0, "kern": "conflict"}])
+        for topo, rnd, hole in itertools.product(("2m", "3mc", "3mi", "4c"), (0, 1),
+                                                 ("hole-default", "hole-last", "hole-mid")):
+            if hole == "hole-mid" and topo == "2m":
+                continue
+            out.append([{"mode": "inst", "topo": topo, "map": 0, "round": rnd, "rules": "none",
+                         "scribble": 0, "kern": hole}])
         if b["defcon_sources"]:
             for topo, rnd, rules in itertools.product(TOPO_NAMES, (0, 1), ("none", "chain")):
                 out.append([{"mode": "inst", "topo": topo, "map": 1, "round": rnd, "rules": rules,
@@ -620,7 +630,7 @@ class C19(Property):
         two = len(TOPOLOGIES[setup["topo"]][0]) == 2
         main = (setup["rules"] in ("none", "chain") and not setup["map"]
                 and setup.get("kern", "base") == "base" and setup.get("module", "ufoLib2") == "ufoLib2")
-        if setup.get("kern") == "conflict":
+        if setup.get("kern", "base") != "base":
             return 1
         if two:
             if main and setup["rules"] == "chain" and setup["scribble"]:
